@@ -8,6 +8,16 @@ NOTE_TRUST = ("Trusted base: TLC 1.8.0, the TLA+ module named in `technique` (co
               "property text), the Go harness' printing/comparison code, and for file-placement only Go's path.Clean.")
 
 CHECKS = {
+ "C19": dict(
+   technique="TLA+ JetLoaderMem / JetLoaderFS (loader contracts: normalised-key map; exactly-the-regular-files; first-loader-wins) "
+             "enumerated by TLC; every history/stack replayed on the real InMem, OS, http, embed and multi loaders; random InMem "
+             "histories trace-validated (Trace_LoaderMem)",
+   text="TLC enumerates all bounded mutation histories over spellings (in-memory loader) and all stacks of well-formed trees "
+        "(file-system and multi loaders) and computes, from the contract, Exists and the owning loader for every query; the real "
+        "loaders are driven through each case (temp dirs, http.Dir, an embedded fixture, NewLoader+AddLoaders) and must agree on "
+        "Exists and on the exact content Open yields. Random long in-memory histories recorded from the real loader are accepted "
+        "event by event by the trace specification.",
+   design_ref="DESIGN.md §5 C19", note=NOTE_TRUST + " The embed.FS tree is a compile-time fixture."),
  "C16": dict(
    technique="TLA+ JetSet (probe-level mechanism of getTemplate + contract HitIdentity/FailuresNeverCached/DevAlwaysReloads/"
              "ParseNeverPuts/ExtensionOrder) model-checked by TLC over all bounded histories; TLC histories (BFS + simulation) "
